@@ -185,3 +185,48 @@ SIM_SCENARIO(scen_c16, "c16", "C16", 6000000, 30000) {
     for (auto& ai : world.ar) delete ai.a;
     W = nullptr;
 }
+
+// c16b — isolation against a stream of enqueued work in the same arena: an application thread repeatedly waits
+// inside this_task_arena::isolate while another thread keeps enqueuing tasks that spawn nested (non-isolated) work.
+SIM_SCENARIO(scen_c16b, "c16b", "C16", 6000000, 30000) {
+    hx::Desc d;
+    hx::draw_runtime_config(d, 8);
+    World world; W = &world;
+    world.ar.resize(1);
+    ArenaInfo& ai = world.ar[0];
+    ai.maxc = (int)sim::draw_range(2, 4, "maxc"); ai.reserved = (int)sim::draw(2, "reserved"); ai.enq_used = true; world.any_enqueue = true;
+    ai.a = new tbb::task_arena(ai.maxc, (unsigned)ai.reserved);
+    int rounds = (int)sim::draw_range(1, 4, "rounds"), ninner = (int)sim::draw_range(2, 6, "inner"), nenq = (int)sim::draw_range(1, 6, "enqueues");
+    static const int ptsv[] = {2, 8, 30};
+    int pts = sim::draw_of(ptsv, "points"), gap = (int)sim::draw(40, "gap"), nested = (int)sim::draw_range(2, 8, "nested");
+    d.add(hx::fmt("isolation-vs-enqueue arena(%d,%d) rounds=%d inner=%d enqueues=%d nested=%d points=%d gap=%d", ai.maxc, ai.reserved, rounds, ninner, nenq, nested, pts, gap));
+    d.publish();
+    std::vector<sim::event*> pend;
+    std::vector<std::function<void()>> fns;
+    fns.push_back([&] {
+        ai.a->execute([&] {
+            int f = sim::self();
+            for (int r = 0; r < rounds; ++r) {
+                int region = world.next_region++;
+                tbb::this_task_arena::isolate([&] {
+                    world.iso_stack[f].push_back(region);
+                    tbb::task_group inner;
+                    for (int i = 0; i < ninner; ++i) inner.run([&, region] { unit(0, region, pts); });
+                    inner.wait();
+                    world.iso_stack[f].pop_back();
+                });
+            }
+        });
+    });
+    fns.push_back([&] {
+        for (int k = 0; k < nenq; ++k) {
+            for (int i = 0; i < gap; ++i) sim::upoint();
+            auto* ev = new sim::event; pend.push_back(ev);
+            ai.a->enqueue([&, ev] { unit(0, 0, pts / 2); tbb::parallel_for(0, nested, [&](int) { unit(0, 0, pts / 2); }, tbb::simple_partitioner()); ev->signal(); });
+        }
+    });
+    hx::run_fibers(fns);
+    for (auto* ev : pend) ev->wait();
+    delete ai.a;
+    W = nullptr;
+}
